@@ -150,7 +150,7 @@ def check_case(case, acc):
                     else:
                         sys.argv = ['mci_ipm_param_to_csv', inp, case['want'], '--in-encoding', case['enc']] + \
                             (['--no1014blocking'] if not case['blocked'] else []) + \
-                            (['--expanded'] if case['expanded'] else [])
+                            (['--expanded'] if case['expanded'] else []) + (['--debug'] if len(data) % 2 else [])
                         mci_ipm_param_to_csv.cli_entry()
                 with open(inp + '_' + case['want'] + '.csv', newline='') as f:
                     got = list(csv.DictReader(f))
